@@ -40,6 +40,9 @@ SPEC = {
              "field of another and of the same configuration, keywords) x containers of length 0/1/3 x 4 list item fields (IntField with "
              "bounds, required IntField, StringField lower+strip, BoolField) and 3 dict field pairs (str->int, int->str, "
              "any->bool), each followed by an observing copy; the F51 keyword-name cases (last operation of their history); "
+             "the validating operations again on containers held by a sub-configuration and by a configuration inside a list, "
+             "whole-value assignments with an unacceptable item / entry in every placement (a refusal is observed with its full "
+             "reference path <configuration path>.<field>[<key as given>], compared with the model: C15_dict_* theorems); "
              "plus the two override-table cases; then seeded random "
              "histories (quick <= 14 ops, thorough <= 40 ops). A case is non-trivial when it performs at least one "
              "operation; distinct = distinct (field, initial value, history)"),
